@@ -376,6 +376,12 @@ impl Scenario for C19 {
                 hh.u64(*x as u64);
             }
             lh.u64(r.log_hash);
+            // the emitted table depends on hash order (ties): part of the fingerprint, so
+            // that the determinism self-test covers the simulated OS entropy
+            if let Ok(bytes) = std::fs::read(&out_file) {
+                lh.bytes(&bytes);
+            }
+            stats.probe("os_entropy_requests_served_from_the_run_seed", r.entropy_calls);
             diverged |= r.status == Status::ReplayDiverged;
             nontrivial |= r.max_tasks >= 3 && r.switches >= 3;
             traces.push(r.trace.clone());
